@@ -807,11 +807,21 @@ class Engine:
             h = self.contract.try_stmt(self, st, s) if hasattr(self.contract, 'try_stmt') else None
             if h is not None:
                 return h
-            raise OutOfSubset("try/except", s)
         st = st.clone()
-        st.finals.append(s.finalbody)
-        outs = []
+        if s.finalbody:
+            st.finals.append(s.finalbody)
+        inner = []
         for o in self.exec_block(s.body, st):
+            if o.sig == RAISE and s.handlers:
+                inner.extend(self._handle(s, o))
+            elif o.sig == NEXT and s.orelse:
+                inner.extend(self.exec_block(s.orelse, o.st))
+            else:
+                inner.append(o)
+        if not s.finalbody:
+            return inner
+        outs = []
+        for o in inner:
             s2 = o.st.clone()
             # pop this finally
             if s2.finals and s2.finals[-1] is s.finalbody:
@@ -822,6 +832,32 @@ class Engine:
                 else:
                     outs.append(fo)   # finally overrides
         return outs
+
+    def _handle(self, s, o):
+        """`except` clauses: an exception is identified by its class name; a clause naming Exception / BaseException (or a bare
+        `except:`) catches every modelled exception, any other clause exactly the classes it names (the library's own
+        exception classes have no subclass relation among them)"""
+        name = o.val.v.name if isinstance(o.val, C) and isinstance(o.val.v, Ref) else None
+        if name is None:
+            raise OutOfSubset("exception value", s)
+        for h in s.handlers:
+            if h.type is None:
+                names = None
+            else:
+                elts = h.type.elts if isinstance(h.type, ast.Tuple) else [h.type]
+                names = [_exc_name(e) for e in elts]
+            if names is None or name in names or 'Exception' in names or 'BaseException' in names:
+                st = o.st.clone()
+                if h.name:
+                    st.locals[h.name] = o.val
+                outs = []
+                for ho in self.exec_block(h.body, st):
+                    if ho.sig == RAISE and isinstance(ho.val, C) and isinstance(ho.val.v, Ref) and ho.val.v.name == 'reraise':
+                        outs.append(Outcome(ho.st, RAISE, o.val))
+                    else:
+                        outs.append(ho)
+                return outs
+        return [o]
 
     def s_With(self, s, st):
         h = self.contract.with_stmt(self, st, s) if hasattr(self.contract, 'with_stmt') else None
